@@ -1,0 +1,11 @@
+//go:build verif
+
+package batchers
+
+import "rare/pkg/extractor"
+
+// verifTrace logs one event to the process-global verification trace (build tag `verif` only;
+// see pkg/extractor/verif_trace.go).
+func verifTrace(ev string, s string, a, b uint64) {
+	extractor.VerifTraceAppend(ev, s, a, b)
+}
